@@ -7,6 +7,7 @@
   full bond dimension and the interlacing of higher roots are numerical (partial).
 -/
 import Mathlib.LinearAlgebra.Matrix.PosDef
+import Mathlib.Data.Int.Star
 
 namespace RenoVerif.Variational
 open Matrix
@@ -46,5 +47,62 @@ theorem omega_square_psd [StarOrderedRing K] (H : Matrix n n K) (hH : H.IsHermit
     rw [conjTranspose_sub, conjTranspose_smul, conjTranspose_one, hH.eq, hom]
   have := Matrix.posSemidef_conjTranspose_mul_self (H - om • (1 : Matrix n n K))
   rwa [hh] at this
+
+/-- the state the optimiser returns is `ψ = P x` (environment isometry applied to the local
+    eigenvector): its global energy form equals the local one … -/
+theorem lifted_rayleigh (H : Matrix n n K) (P : Matrix n m K) (x : m → K) :
+    star (P *ᵥ x) ⬝ᵥ (H *ᵥ (P *ᵥ x)) = star x ⬝ᵥ ((Pᴴ * H * P) *ᵥ x) := by
+  rw [star_mulVec, dotProduct_mulVec, vecMul_vecMul, dotProduct_mulVec, vecMul_vecMul,
+    ← dotProduct_mulVec, Matrix.mul_assoc]
+
+/-- … and its norm equals the norm of the local vector -/
+theorem lifted_norm (P : Matrix n m K) (hP : Pᴴ * P = 1) (x : m → K) :
+    star (P *ᵥ x) ⬝ᵥ (P *ᵥ x) = star x ⬝ᵥ x := by
+  rw [star_mulVec, dotProduct_mulVec, vecMul_vecMul, hP, vecMul_one]
+
+/-- an eigenvalue of a matrix bounded below by `λ` (in the positive-semidefinite order) is `≥ λ` -/
+theorem eigen_energy_ge [IsOrderedRing K] (A : Matrix m m K) (lam e : K) (x : m → K)
+    (hA : (A - lam • (1 : Matrix m m K)).PosSemidef)
+    (hx : A *ᵥ x = e • x) (hn : star x ⬝ᵥ x = 1) : lam ≤ e := by
+  have h := hA.dotProduct_mulVec_nonneg x
+  rw [sub_mulVec, smul_mulVec, one_mulVec, hx, dotProduct_sub, dotProduct_smul, dotProduct_smul, hn] at h
+  simpa using h
+
+/-- **the reported energy is variational and is the energy of the returned state**: with `λ` a lower
+    bound of `H`, `P` the environment isometry, `(e, x)` a normalised eigenpair of the effective
+    Hamiltonian (what every local solver — dense, Davidson, ARPACK — returns), the reported `e`
+    satisfies `λ ≤ e`, the returned state `ψ = P x` is normalised and `⟨ψ|H|ψ⟩ = e`.
+    (The L2 tie checks `PᴴP = 1` on the real tensors and `e = ⟨ψ|H|ψ⟩/⟨ψ|ψ⟩` on the real output.) -/
+theorem reported_energy_variational [IsOrderedRing K] (H : Matrix n n K) (P : Matrix n m K) (lam e : K)
+    (x : m → K) (hP : Pᴴ * P = 1) (hH : (H - lam • (1 : Matrix n n K)).PosSemidef)
+    (hx : (Pᴴ * H * P) *ᵥ x = e • x) (hn : star x ⬝ᵥ x = 1) :
+    lam ≤ e ∧ star (P *ᵥ x) ⬝ᵥ (P *ᵥ x) = 1 ∧ star (P *ᵥ x) ⬝ᵥ (H *ᵥ (P *ᵥ x)) = e := by
+  refine ⟨eigen_energy_ge _ lam e x (compression_lower_bound H P lam hP hH) hx hn, ?_, ?_⟩
+  · rw [lifted_norm P hP, hn]
+  · rw [lifted_rayleigh, hx, dotProduct_smul, hn]; simp
+
+/-- the same through two nested compressions (a sweep with a smaller bond dimension inside a larger
+    variational space): the energy found in the smaller space is still bounded below by `λ` -/
+theorem reported_energy_nested [IsOrderedRing K] {k : Type} [Fintype k] [DecidableEq k] (H : Matrix n n K)
+    (P : Matrix n m K) (P2 : Matrix m k K) (lam e : K) (x : k → K) (hP : Pᴴ * P = 1) (hP2 : P2ᴴ * P2 = 1)
+    (hH : (H - lam • (1 : Matrix n n K)).PosSemidef)
+    (hx : (P2ᴴ * (Pᴴ * H * P) * P2) *ᵥ x = e • x) (hn : star x ⬝ᵥ x = 1) : lam ≤ e :=
+  eigen_energy_ge _ lam e x (compression_nested H P P2 lam hP hP2 hH) hx hn
+
+-- non-vacuity: a concrete instance (H = [[2,1],[1,2]] ≥ 1, P = first basis vector, eigenpair (2, 1))
+-- meets every hypothesis of `reported_energy_variational`
+private def exH : Matrix (Fin 2) (Fin 2) ℤ := !![2, 1; 1, 2]
+private def exP : Matrix (Fin 2) (Fin 1) ℤ := !![1; 0]
+private def exV : Matrix (Fin 1) (Fin 2) ℤ := !![1, 1]
+private def exX : Fin 1 → ℤ := fun _ => 1
+example : (1 : ℤ) ≤ 2 := by
+  have hH : (exH - (1 : ℤ) • (1 : Matrix (Fin 2) (Fin 2) ℤ)).PosSemidef := by
+    have h := Matrix.posSemidef_conjTranspose_mul_self exV
+    have e : exVᴴ * exV = exH - (1 : ℤ) • (1 : Matrix (Fin 2) (Fin 2) ℤ) := by decide
+    rwa [e] at h
+  have hP : exPᴴ * exP = 1 := by decide
+  have hx : (exPᴴ * exH * exP) *ᵥ exX = (2 : ℤ) • exX := by decide
+  have hn : star exX ⬝ᵥ exX = 1 := by decide
+  exact (reported_energy_variational exH exP 1 2 exX hP hH hx hn).1
 
 end RenoVerif.Variational
